@@ -113,6 +113,11 @@ theorem newRep_slots (f : Fun) (s : State) (w : Nat) (hw : w < anonBase) :
 @[simp] theorem weakNotify_slots (r s) : (weakNotify r s).slots = s.slots := by
   unfold weakNotify; split <;> simp
 
+@[simp] theorem slotRemCb_slots (v c s) : (slotRemCb v c s).slots = s.slots := by
+  unfold slotRemCb; split <;> simp
+@[simp] theorem killConn_slots (c s) : (killConn c s).slots = s.slots := by
+  unfold killConn; split <;> simp
+
 theorem destroyRep_mono : ∀ k r s, SlotsMono (destroyRep k r s) s := by
   intro k
   induction k with
@@ -129,7 +134,11 @@ theorem destroyRep_mono : ∀ k r s, SlotsMono (destroyRep k r s) s := by
             fun R' => { R' with fn := none }) s := SlotsMono.of_eq (by simp)
         simp only []
         split
-        · exact h2
+        · split
+          · exact h2
+          · split
+            · exact h2
+            · exact SlotsMono.trans (SlotsMono.of_eq (killConn_slots _ _)) h2
         · split
           · exact h2
           · split
@@ -231,7 +240,7 @@ theorem deleteRepWithCheck_slots (v : Nat) (s : State) (w : Nat) (W' : SVar)
     · rename_i hs
       simp only [hs, if_true]
       have h2 := deleteRep_mono _ _ _ _ h
-      rw [modSlot_slots] at h2
+      rw [weakNotify_slots, modSlot_slots] at h2
       split at h2
       · subst_vars
         rw [Option.map_eq_some_iff] at h2
@@ -521,7 +530,9 @@ theorem Blk.exchangeRep_slots (d n : Nat) (s : State) (w : Nat) (W' : SVar)
   unfold exchangeRep at h
   split at h
   · exact key s rfl h
-  · exact key _ (by simp) (deleteRep_mono _ _ _ _ h)
+  · have h' := deleteRep_mono _ _ _ _ h
+    rw [weakNotify_slots] at h'
+    exact key _ (by simp) h'
 
 theorem Blk.repOf_eq {s : State} {v : Nat} {V : SVar} (h : s.slots v = some V) : repOf s v = V.rep := by
   simp [repOf, h]
